@@ -206,14 +206,17 @@ int main(int argc, char **argv) {
                 size_t hdr = sizeof(qhasharr_data_t), ssz = sizeof(qhasharr_slot_t);
                 vh_where = "ctorsz";
                 for (size_t s = 1; s <= hdr + 4 * ssz + 3 && s + 64 < mapsz; s += (s < 40 || (s % ssz) <= 2 || (s % ssz) >= ssz - 2) ? 1 : 7) {
-                    unsigned char *r = arena[1] + mapsz - s;
-                    memset(arena[1] + mapsz - s - 64, 0xC7, 64);
+                    size_t slack = (4 - s % 4) % 4;              /* the region itself must be aligned for the header: that is the caller's duty */
+                    unsigned char *r = arena[1] + mapsz - s - slack;
+                    memset(r - 64, 0xC7, 64);
                     memset(r, 0xEE, s);
+                    memset(r + s, 0xC7, slack);
                     vh_watchdog(6);
                     qhasharr_t *t = qhasharr(r, s);
                     alarm(0);
                     int okc = 1;
                     for (int j = 0; j < 64; j++) if (r[-64 + j] != 0xC7) okc = 0;
+                    for (size_t j = 0; j < slack; j++) if (r[s + j] != 0xC7) okc = 0;
                     if (t) {
                         qhasharr_data_t *d = (qhasharr_data_t *) r;
                         if (s < hdr || d->maxslots < 1 || hdr + (size_t) d->maxslots * ssz > s) okc = 0;
